@@ -12,6 +12,14 @@ CLAIMED = {
             'exploration: held on the histories actually executed (hundreds of worlds, tens of thousands of calls per run); every batched block, wrapper and repeated call is compared bit for bit with the stand-alone answer of a twin world; memory errors in the offset bookkeeping are caught by AddressSanitizer',
             'trusts the stand-alone single-property 3D/2D call of a twin world as the model; histories are finite samples; at most three worlds alive per process',
             'DESIGN.md section 4, C01'),
+    'C03': ('runtime monitoring: reference-model monitor (closed-form background state evaluated next to the real code) over generated worlds and points, on the ASan+UBSan build',
+            'exploration: held on the sampled worlds/points (thousands of points far outside every feature and every sampled point with tag -1, both coordinate systems, random global constants); forced surface temperature checked at depth 0 for every batching',
+            'the generator\'s truth record decides which points are far outside every feature; tolerance 1e-12 relative on the adiabat',
+            'DESIGN.md section 4, C03'),
+    'C16': ('runtime monitoring: differential monitor - the same command stream through the native World, the C API and wrapper_cpp in one process, bit equality; file-system observation of create_world\'s output directory',
+            'exploration: held on the executed call streams (corpus incl. random-model worlds and generated worlds, all create_world argument combinations sampled); output vectors are allocated with exactly the announced size so ASan catches a wrapper that writes more',
+            'native World is the reference; Fortran/Python wrappers are not built in this image; only relative output directories are used',
+            'DESIGN.md section 4, C16'),
 }
 
 PENDING_REASON = 'check not built yet (work in progress; see DESIGN.md section 9)'
